@@ -430,7 +430,7 @@ fn wide_inputs(thorough: bool, rng: &mut Rng64) -> Vec<(String, String)> {
             }
         }
     }
-    let per = if thorough { 40 } else { 3 };
+    let per = if thorough { 8 } else { 3 };
     for n in WIDE_NS { for shape in 0..7u64 { for _ in 0..per {
         v.push((wide_shape(rng, n, shape), wide_flips(rng, n)));
     } } }
